@@ -1,4 +1,5 @@
 import XmpModel.Downmix
+import XmpModel.C13Timeline
 /-! Native driver for the C13 correspondence: runs the model `Xmp.Downmix` on the
 script that is also fed to harness/c13_downmix.c (`rnd`, `vals`, `one`) and on the
 `site` lines recorded by harness/c13_timeline.c (final stage of
@@ -95,6 +96,18 @@ partial def loop (h : IO.FS.Stream) : IO Unit := do
     let t := ticksize.toNat?.getD 0
     let out := renderBytes f t (amp.toNat?.getD 0) (parseAcc acc)
     IO.println s!"site {bufferSize f t} {out.length} {hex64 (fnvBytes fnvInit out)}"
+  | ["tfc", fmt, rate, playing, bpm, rrm, rre, tfm, tfe, kind, vm, ve] =>
+    -- xmp_set_tempo_factor on a real context: `tfc <fmt> <rate> <playing> <bpm> <rrate m e> <time_factor m e> <bad|inf|pos> <val m e>`
+    let c : Xmp.C13Timeline.OutCfg := { rate := rate.toInt?.getD 0, fmt := Fmt.ofNat (fmt.toNat?.getD 0) }
+    let s : Xmp.C13Timeline.SeqSide := {
+      playing := playing != "0", bpm := bpm.toInt?.getD 0,
+      rrate := { m := rrm.toNat?.getD 0, e := rre.toInt?.getD 0 },
+      timeFactor := { m := tfm.toNat?.getD 0, e := tfe.toInt?.getD 0 } }
+    let v : Xmp.C13Timeline.Val :=
+      if kind == "bad" then .bad else if kind == "inf" then .inf else .pos { m := vm.toNat?.getD 0, e := ve.toInt?.getD 0 }
+    let r := Xmp.C13Timeline.setTempoFactor c s v
+    let t := r.2.timeFactor.canon
+    IO.println s!"tfe {r.1} {t.m} {t.e}"
   | _ => pure ()
   loop h
 
